@@ -207,6 +207,17 @@ class SourceFile:
             import re as _re
             mm = _re.match(r"(\w+)(.*)$", part, _re.S)
             kw, rest = mm.group(1), mm.group(2).strip()
+            if kw == "arm":
+                # R16: the block of the match arm `<PATTERN> => { .. }` inside the enclosing item (unique token sequence)
+                pat = norm(rest) + ["=", ">", "{"]
+                sig = [k for k in range(lo, hi) if self.toks[k].kind not in TRIVIA]
+                hits = [i for i in range(len(sig) - len(pat) + 1) if [self.toks[sig[i + j]].text for j in range(len(pat))] == pat]
+                if len(hits) != 1:
+                    raise LostAnchor(f"{self.path}: match arm `{rest} => {{` of `{selector}` found {len(hits)} times, expected 1")
+                bo = sig[hits[0] + len(pat) - 1]
+                item = Item("arm", rest, bo, bo, bo, match_close(self.toks, bo))
+                lo, hi = item.body_open + 1, item.end
+                continue
             want = _norm_header(rest) if kw == "impl" else rest
             cands = [it for it in scan_items(self.toks, lo, hi) if it.kw == kw and it.name == want]
             if not cands:
